@@ -44,6 +44,10 @@ def gen_cases(tier, seed):
     # families: one key / many messages and one message / many keys signed back to back in one process
     for i in range(6 if q else 60):
         yield "family", {"salt": rng.getrandbits(32), "n": 6}
+    # valid signatures whose first bytes look like another encoding's framing (30 3e = "a DER SEQUENCE of 62 bytes", 30 44/45 ..): built from
+    # a chosen nonce point R (walked until R.x has the prefix), s = k + e d - valid by construction, must be accepted
+    for i in range(1 if q else 6):
+        yield "verify_structured", {"salt": rng.getrandbits(32), "prefix": ["303e", "3040", "3044", "303e", "0220", "3045"][i % 6]}
     # the hash primitives underneath (bits.crypto) against hashlib, for every length 0..1100 and around powers of two up to 2^17
     yield "hash_lengths", {"salt": rng.getrandbits(32)}
     # several signers / verifiers at once: results must not depend on what another thread is computing (module-level scratch state would)
@@ -68,7 +72,7 @@ def gen_cases(tier, seed):
 
 
 def required(tier):
-    return {"sign.decided": 120, "sign.class.odd_y": 15, "sign.class.pk_leading_zero": 10, "sign.class.aux_omitted": 20, "sign.class.rx_leading_zero": 5, "family.signs": 50, "argforms.calls": 50, "hash.lengths": 1000, "threads.results": 20,
+    return {"sign.decided": 120, "sign.class.odd_y": 15, "sign.class.pk_leading_zero": 10, "sign.class.aux_omitted": 20, "sign.class.rx_leading_zero": 5, "family.signs": 50, "argforms.calls": 50, "hash.lengths": 1000, "vstruct.signatures": 1, "threads.results": 20,
             "sign.badkey_refused": 6, "verify.decided": 500, "verify.expected_accept": 40, "verify.mut.pk_zero_prepended": 30,
             "verify.mut.sig_zero_before_s": 30, "verify.mut.odd_R": 10, "verify.mut.twist_forgery": 4}
 
@@ -199,6 +203,40 @@ def run_case(kind, params, ctx):
         if bytes(b340.pubkey(pt)) != pk:
             ctx.violation("pubkey/wrong", f"bip340.pubkey({pt})")
         return
+    if kind == "verify_structured":
+        rng = rng_for("C12vs", params["salt"])
+        pre = int(params["prefix"], 16)
+        d = rng.randrange(1, N)
+        Pt = secp.pub(d)
+        if Pt[1] & 1:
+            d = N - d
+            Pt = secp.pub(d)
+        pk = Pt[0].to_bytes(32, "big")
+        msg = rand_bytes(rng, 32)
+        k = rng.randrange(1, N)
+        R, G = secp.pub(k), secp.pub(1)
+        for _ in range(600000):
+            if R[0] >> 240 == pre:
+                break
+            k += 1
+            R = secp.SECP.add(R, G)
+        else:
+            ctx.count("vstruct.grind_failed")
+            return
+        if R[1] & 1:
+            k = N - k
+        rb_ = R[0].to_bytes(32, "big")
+        e = int.from_bytes(rs.tagged("BIP0340/challenge", rb_ + pk + msg), "big") % N
+        sig = rb_ + ((k + e * d) % N).to_bytes(32, "big")
+        if not rs.verify(pk, msg, sig):
+            ctx.oracle_error("constructed signature is not valid under the reference")
+            return
+        ctx.count("vstruct.signatures")
+        ctx.nontrivial()
+        ok, out = _lib_verify(pk, msg, sig)
+        if not ok:
+            ctx.violation("verify/rejects-valid/r-looks-like-der-framing", f"valid signature {sig.hex()} (r starts with {params['prefix']}) rejected: {out!r}")
+        return
     if kind == "hash_lengths":
         import hashlib as _hl
         import bits.crypto as bcr
@@ -296,6 +334,31 @@ def run_case(kind, params, ctx):
                 ok, out = False, f"{type(e).__name__}: {e}"
             if not ok:
                 ctx.violation(f"verify/rejects-valid/arg-form/{name}", f"verify of a valid triple passed as {name}: {out!r}")
+        # a key / aux / message held in a mutable buffer is the caller's: unchanged after the call, and usable again with the same result
+        kb, ab, mb = bytearray(sk), bytearray(aux), bytearray(msg)
+        try:
+            first = bytes(b340.sign(kb, mb, ab))
+            again = bytes(b340.sign(kb, mb, ab))
+            if (bytes(kb), bytes(ab), bytes(mb)) != (sk, aux, msg):
+                ctx.violation("sign/argument-buffer-changed", f"sign() changed a caller's buffer: key {bytes(kb).hex()[:16]}.. aux {bytes(ab).hex()[:16]}.. (were {sk.hex()[:16]}.. {aux.hex()[:16]}..)")
+            if first != exp or again != exp:
+                ctx.violation("sign/differs-from-bip340/arg-form/reused-buffers", f"first {first.hex()[:32]} second {again.hex()[:32]} reference {exp.hex()[:32]}")
+        except ContractViolation:
+            raise
+        except TypeError:
+            ctx.count("argforms.refused_with_TypeError")
+        except Exception as e:
+            ctx.violation("sign/raises/arg-form/reused-buffers", f"{type(e).__name__}: {e}")
+        try:
+            rv = bytes(b340.sign(memoryview(sk), msg, aux))     # a READ-ONLY view of a valid key
+            if rv != exp:
+                ctx.violation("sign/differs-from-bip340/arg-form/readonly-memoryview-key", rv.hex()[:40])
+        except ContractViolation:
+            raise
+        except Exception as e:
+            ctx.count("argforms.readonly_view_refused")
+            if not isinstance(e, TypeError) or "read" in str(e).lower() or "assign" in str(e).lower():
+                ctx.violation("sign/raises/arg-form/readonly-memoryview-key", f"{type(e).__name__}: {e}")
         # the text of a bytearray's repr is a different message: the signature must not carry over
         alt = str(bytearray(msg)).encode()
         ok, _o = _lib_verify(pk, alt, exp)
